@@ -147,3 +147,175 @@ func registerSDK(P *Program) {
 		return len(s) == 40 && err == nil
 	})
 }
+
+// deepClone copies a value including everything reachable through pointers (proto.Clone semantics).
+func (it *Interp) deepClone(v Value, seen map[*Cell]*Cell) Value {
+	switch x := v.(type) {
+	case *StructV:
+		n := &StructV{T: x.T, Fields: make([]Value, len(x.Fields))}
+		for i, f := range x.Fields {
+			n.Fields[i] = it.deepClone(f, seen)
+		}
+		return n
+	case *ArrayV:
+		n := &ArrayV{Elems: make([]Value, len(x.Elems))}
+		for i, f := range x.Elems {
+			n.Elems[i] = it.deepClone(f, seen)
+		}
+		return n
+	case *BigV:
+		return &BigV{V: x.V}
+	case *Ptr:
+		if x == nil {
+			return x
+		}
+		nc, ok := seen[x.C]
+		if !ok {
+			nc = it.newCell(nil, x.C.Name)
+			seen[x.C] = nc
+			nc.V = it.deepClone(x.C.V, seen)
+		}
+		return &Ptr{C: nc, Path: append([]int{}, x.Path...)}
+	case *SliceV:
+		if x.Arr == nil {
+			return x
+		}
+		nc, ok := seen[x.Arr]
+		if !ok {
+			nc = it.newCell(nil, x.Arr.Name)
+			seen[x.Arr] = nc
+			nc.V = it.deepClone(x.Arr.V, seen)
+		}
+		return &SliceV{Arr: nc, Off: x.Off, Len: x.Len, Cap: x.Cap}
+	case *IfaceV:
+		if x == nil {
+			return x
+		}
+		return &IfaceV{T: x.T, V: it.deepClone(x.V, seen)}
+	case *MapV:
+		if x == nil {
+			return x
+		}
+		it.cellSeq++
+		n := &MapV{M: map[string]*mapEntry{}, id: it.cellSeq, Keys: append([]string{}, x.Keys...)}
+		for k, e := range x.M {
+			n.M[k] = &mapEntry{K: e.K, V: it.deepClone(e.V, seen)}
+		}
+		return n
+	case *CoinsV:
+		n := &CoinsV{Amt: map[string]Value{}}
+		for k, a := range x.Amt {
+			n.Amt[k] = a
+		}
+		return n
+	}
+	return v
+}
+
+func (it *Interp) msgPtr(v Value) (*Ptr, string) {
+	iv, ok := v.(*IfaceV)
+	if !ok || iv == nil {
+		panic(unsupported(fmt.Sprintf("codec: expected a proto message pointer, got %T", v)))
+	}
+	p, ok := iv.V.(*Ptr)
+	if !ok {
+		panic(unsupported(fmt.Sprintf("codec: message is not a pointer (%T)", iv.V)))
+	}
+	return p, iv.T.String()
+}
+
+var blobCodec = &NativeObj{Name: "codec"}
+
+func init() {
+	marshal := func(it *Interp, a []Value) Value {
+		p, k := it.msgPtr(a[0])
+		if p == nil {
+			it.nilDeref()
+		}
+		return &BlobV{Kind: "proto:" + k, V: it.deepClone(it.load(p), map[*Cell]*Cell{})}
+	}
+	unmarshal := func(it *Interp, a []Value) *ErrV {
+		p, k := it.msgPtr(a[1])
+		switch bz := a[0].(type) {
+		case *BlobV:
+			if bz.Kind != "proto:"+k {
+				return &ErrV{Root: "codec/unmarshal", Msg: "blob of type " + bz.Kind + " decoded as " + k}
+			}
+			it.storeTo(p, it.deepClone(bz.V, map[*Cell]*Cell{}))
+			return nil
+		case *SliceV:
+			if bz.Len == 0 {
+				// empty input decodes to the zero message
+				return nil
+			}
+		}
+		panic(unsupported("codec.Unmarshal of concrete bytes"))
+	}
+	blobCodec.Methods = map[string]Intrinsic{
+		"Marshal":     func(it *Interp, a []Value) Value { return Tuple{marshal(it, a), (*ErrV)(nil)} },
+		"MustMarshal": func(it *Interp, a []Value) Value { return marshal(it, a) },
+		"Unmarshal": func(it *Interp, a []Value) Value {
+			if e := unmarshal(it, a); e != nil {
+				return e
+			}
+			return (*ErrV)(nil)
+		},
+		"MustUnmarshal": func(it *Interp, a []Value) Value {
+			if e := unmarshal(it, a); e != nil {
+				panic(&GoPanic{Msg: e.Msg})
+			}
+			return nil
+		},
+	}
+	blobCodec.Methods["MarshalLengthPrefixed"] = blobCodec.Methods["Marshal"]
+	blobCodec.Methods["MustMarshalLengthPrefixed"] = blobCodec.Methods["MustMarshal"]
+	blobCodec.Methods["UnmarshalLengthPrefixed"] = blobCodec.Methods["Unmarshal"]
+	blobCodec.Methods["MustUnmarshalLengthPrefixed"] = blobCodec.Methods["MustUnmarshal"]
+}
+
+func registerSDK2(P *Program) {
+	nop := func(it *Interp, a []Value) Value { return nil }
+	for _, pk := range []string{"github.com/cosmos/gogoproto/proto", "github.com/golang/protobuf/proto", "github.com/gogo/protobuf/proto"} {
+		for _, f := range []string{"RegisterType", "RegisterFile", "RegisterEnum", "RegisterExtension", "RegisterMapType", "GoGoProtoPackageIsVersion3", "RegisterCustomTypeURL"} {
+			P.reg(pk+"."+f, nop)
+		}
+	}
+	P.reg("github.com/cosmos/cosmos-sdk/types/msgservice.RegisterMsgServiceDesc", nop)
+	P.reg("regexp.MustCompile", func(it *Interp, a []Value) Value { return PoisonV{Why: "regexp"} })
+	P.reg("regexp.Compile", func(it *Interp, a []Value) Value { return Tuple{PoisonV{Why: "regexp"}, (*ErrV)(nil)} })
+	P.reg("zzverif.Codec", func(it *Interp, a []Value) Value { return blobCodec })
+	P.reg("github.com/cosmos/gogoproto/proto.Clone", func(it *Interp, a []Value) Value {
+		iv, ok := a[0].(*IfaceV)
+		if !ok || iv == nil {
+			return a[0]
+		}
+		return &IfaceV{T: iv.T, V: it.deepClone(iv.V, map[*Cell]*Cell{})}
+	})
+	P.reg(sdkPkg+".Uint64ToBigEndian", func(it *Interp, a []Value) Value {
+		if b, ok := a[0].(*big.Int); ok {
+			out := make([]byte, 8)
+			b.FillBytes(out)
+			return it.mkBytes(out)
+		}
+		return &BlobV{Kind: "u64be", V: a[0]}
+	})
+	P.reg(sdkPkg+".BigEndianToUint64", func(it *Interp, a []Value) Value {
+		switch bz := a[0].(type) {
+		case *BlobV:
+			if bz.Kind == "u64be" {
+				return bz.V
+			}
+			panic(unsupported("BigEndianToUint64 of blob " + bz.Kind))
+		case *SliceV:
+			b := it.bytesOf(bz)
+			if len(b) == 0 {
+				return big.NewInt(0)
+			}
+			if len(b) < 8 {
+				panic(&GoPanic{Msg: "runtime error: index out of range"})
+			}
+			return new(big.Int).SetBytes(b[:8])
+		}
+		panic(unsupported("BigEndianToUint64"))
+	})
+}
